@@ -28,6 +28,10 @@ MUTATORS = [
     "unlink_from",
     "adj_dict",
     "adj_matrix",
+    # membership changes: reads confined to a universe must follow them
+    "uni_add",
+    "uni_remove",
+    "v_remove_uni",
 ]
 DEGENERATE = ["add_to_link", "add_vertex", "mk_vertex_links"]
 READS = ["neighbors", "trav", "search"]
@@ -45,6 +49,9 @@ MUTATING_OPS = {
     "adj_matrix",
     "mk_universe",
     "uni_add",
+    "uni_remove",
+    "v_add_uni",
+    "v_remove_uni",
 }
 READ_OPS = {"neighbors", "trav", "search", "step"}
 
